@@ -208,6 +208,9 @@ class ACEProcess(interface.Processor):
           ACE.
         """
         assert self._p.stdin is not None, 'cannot send inputs to ACE'
+        if self._p.poll() is not None:
+            logger.info('ACE process has exited; attempting to reopen')
+            self._open()
         try:
             self._p.stdin.write((datum.rstrip() + '\n'))
             self._p.stdin.flush()
